@@ -109,6 +109,10 @@ type provCtx struct {
 	busy map[ssa.Value]bool
 	// deadEdgeFn, when set, reports CFG edges pruned by the current assumptions.
 	deadEdgeFn func(from, to *ssa.BasicBlock) bool
+	// distinctParams: the flow engine's convention — parameters are distinct objects, except the pair
+	// (sameA, sameB) when sameB >= 0, which is assumed to be one object.
+	distinctParams bool
+	sameA, sameB   int
 }
 
 func (w *World) newProv(fn *ssa.Function, dead map[*ssa.BasicBlock]bool) *provCtx {
@@ -283,6 +287,24 @@ func (p *provCtx) callRoots(c *ssa.Call, idx int) []Loc {
 		}
 		return []Loc{{Root: Root{Kind: RExtern, Name: name}}}
 	}
+	// the alias-aware view helpers: which view comes back depends on whether receiver and `a` are one object
+	if n := w.shortName(f); p.distinctParams && (n == "(*BigInt).innerOrAlias" || n == "(*BigInt).innerOrNilOrAlias") && len(cc.Args) > 3 {
+		if rp, ok := soleParam(p.roots(cc.Args[0])); ok {
+			if ap, ok := soleParam(p.roots(cc.Args[2])); ok {
+				same := rp == ap || (p.sameB >= 0 && (rp == p.sameA && ap == p.sameB || rp == p.sameB && ap == p.sameA))
+				var out []Loc
+				if same {
+					out = append(out, p.roots(cc.Args[3])...)
+				} else {
+					out = append(out, p.roots(cc.Args[0])...)
+				}
+				if n == "(*BigInt).innerOrNilOrAlias" {
+					out = append(out, Loc{Root: Root{Kind: RNil}})
+				}
+				return out
+			}
+		}
+	}
 	s := w.summary(f)
 	if idx >= len(s.Returns) {
 		return []Loc{{Root: Root{Kind: RUnknown}}}
@@ -315,4 +337,12 @@ func (p *provCtx) translate(l Loc, f *ssa.Function, args []ssa.Value) []Loc {
 	default:
 		return []Loc{l}
 	}
+}
+
+// soleParam: ls is exactly one parameter object (whole object, no field).
+func soleParam(ls []Loc) (int, bool) {
+	if len(ls) != 1 || ls[0].Root.Kind != RParam {
+		return 0, false
+	}
+	return ls[0].Root.Param, true
 }
